@@ -26,9 +26,11 @@ func init() {
 
 type cnt struct{ Min, Max int }
 
-func countCalls(l *Loaded, info *types.Info, fi *FuncInfo, key string, wrappers map[*types.Func]*Wrapper) (exits map[*ast.ReturnStmt]cnt, fallOff *cnt) {
+func countCalls(db *SiteDB, info *types.Info, fi *FuncInfo, key string) (exits map[*ast.ReturnStmt]cnt, fallOff *cnt) {
+	l, wrappers := db.L, db.Wrappers
 	exits = map[*ast.ReturnStmt]cnt{}
-	a := &Analysis[cnt]{L: l, Info: info, Wrappers: wrappers,
+	// Calls made by private helpers count as well: they are analysed in place.
+	a := &Analysis[cnt]{L: l, Info: info, Wrappers: wrappers, Inline: inlinePolicy[cnt](db, fi),
 		Join: func(a, b cnt) cnt {
 			o := a
 			if b.Min < o.Min {
@@ -100,7 +102,7 @@ func checkC06(r *Run) {
 		return
 	}
 	// --- r1: number of sends per exit ---
-	counts, fall := countCalls(r.L, info, hr, "p9.send", db.Wrappers)
+	counts, fall := countCalls(db, info, hr, "p9.send")
 	if fall != nil {
 		r.undecided("r1", "handleRequest falls off its end", hr.Decl.End(), "expected explicit returns")
 	}
@@ -146,19 +148,20 @@ func checkC06(r *Run) {
 	r.floor("r1", "exits of handleRequest", nExits, 3)
 	// Arguments of the sends.
 	nSend := 0
-	for _, s := range m.callsIn(hr, "p9.send") {
+	sends := m.callsDeep(hr, "p9.send") // sends made through private helpers included
+	for _, s := range sends {
 		nSend++
 		if len(s.Call.Args) != 4 {
 			r.undecided("r1", "handleRequest: send arguments", s.Call.Pos(), "send has %d arguments", len(s.Call.Args))
 			continue
 		}
-		tagArg := res.str(s.Call.Args[2])
-		msgArg := unparen(s.Call.Args[3])
+		tagArg := s.arg(2)
+		msgArg := s.argExpr(info, 3)
 		key := fmt.Sprintf("handleRequest: send #%d", nSend)
 		// tag is the recv result, not reassigned (single definition => resolver keeps the name)
 		tagOK := tagArg == tagName && s.St.Defs[objByName(info, hr, tagName)] == ast.Node(recvCall)
 		r.check(tagOK, "r1", key+" carries the request's tag", s.Call.Pos(), "tag = the value recv returned", "the reply's tag is "+tagArg+", not the tag returned by recv for this request")
-		wArg := res.str(s.Call.Args[1])
+		wArg := s.arg(1)
 		r.check(wArg == "cs.r", "r1", key+" goes to this connection", s.Call.Pos(), "writer = cs.r", "the reply is written to "+wArg)
 		if s.St.holds(startKey, true) {
 			// message = result of cs.handle(m)
@@ -191,13 +194,12 @@ func checkC06(r *Run) {
 	r.check(nSend == 2, "r1", "handleRequest: send sites", hr.Decl.Pos(), "2 send sites", fmt.Sprintf("%d send sites in handleRequest (expected the normal reply and the protocol-error reply)", nSend))
 
 	// --- r2: who may call ---
-	var callers []string
-	for _, s := range db.Calls["p9.send"] {
-		callers = append(callers, s.Root.Key)
+	badCallers, via := m.reachedOnlyFrom("p9.send", map[string]bool{"p9.Client.sendRecv": true, "p9.connState.handleRequest": true})
+	viaNote := ""
+	if len(via) > 0 {
+		viaNote = " (through the private helpers " + strings.Join(via, ", ") + ")"
 	}
-	sort.Strings(callers)
-	callers = dedupe(callers)
-	r.check(strings.Join(callers, ",") == "p9.Client.sendRecv,p9.connState.handleRequest", "r2", "callers of send", token.NoPos, "send is called from "+strings.Join(callers, ", "), "send is called from "+strings.Join(callers, ", ")+"; only handleRequest (server) and sendRecv (client) may write frames")
+	r.check(len(badCallers) == 0 && len(db.Calls["p9.send"]) >= 2, "r2", "callers of send", token.NoPos, "send is reached only from handleRequest and sendRecv"+viaNote, "send is also called from "+strings.Join(badCallers, ", ")+"; only handleRequest (server) and sendRecv (client) may write frames")
 	var hcallers []string
 	for _, s := range db.Calls["p9.handler.handle"] {
 		hcallers = append(hcallers, s.Root.Key)
@@ -205,7 +207,7 @@ func checkC06(r *Run) {
 	hcallers = dedupe(hcallers)
 	r.check(len(hcallers) == 1 && hcallers[0] == "p9.connState.handle", "r2", "callers of handler.handle", token.NoPos, "only connState.handle dispatches to handlers", "handler.handle is invoked from "+strings.Join(hcallers, ", "))
 	// every server send is dominated by a recv in the same activation
-	for _, s := range m.callsIn(hr, "p9.send") {
+	for _, s := range sends {
 		r.check(s.St.Must["p9.recv"], "r2", "server send follows a recv", s.Call.Pos(), "recv precedes on every path", "a reply can be sent without a request having been received in this activation")
 	}
 
@@ -301,7 +303,7 @@ func checkC06(r *Run) {
 	// each token exists for: recv under recvMu, send under sendMu).
 	nb := 0
 	for _, b := range db.Blocking {
-		if b.Callee == "go" || isClientSide(b.Root) || b.St.Dead {
+		if b.Callee == "go" || isClientSide(b.Root) || b.St.Dead || b.NonBlocking {
 			continue
 		}
 		nb++
@@ -341,7 +343,7 @@ func checkC06(r *Run) {
 		r.check(s.St.Must["p9.connState.handle"] || handledOrBypassed(r, m, hr, s.Call), "r5", "ClearTag after the handler returned", s.Call.Pos(), "cs.handle(m) (or the self-flush bypass) precedes", "the tag is cleared before the handler has run")
 	}
 	r.check(nClear == 1, "r5", "exactly one ClearTag site", hr.Decl.Pos(), "1 site", fmt.Sprintf("%d ClearTag call sites", nClear))
-	for _, s := range m.callsIn(hr, "p9.send") {
+	for _, s := range sends {
 		if s.St.holds(startKey, true) {
 			r.check(s.St.Must["p9.connState.ClearTag"], "r5", "tag cleared before the reply is sent", s.Call.Pos(), "ClearTag precedes send", "the reply can hit the wire before the tag is cleared: the client may legally reuse the tag and be refused as duplicate")
 		}
